@@ -1,3 +1,82 @@
-import QcoVerif.Model.Builder
+import QcoVerif.Properties.C01
+/-
+  C06 — applying repetition modifiers unrolls n back-to-back copies, once.
+
+  Proved here (about definitions the driver executes):
+   * the group link created by `extend` refers to the member that ends latest, first one on ties
+     (`copy_follows_latest_leaf`, = `pickLatest`);
+   * n copies of a block of duration T chained back to back occupy exactly n·T (`chain_span`) — with the previous
+     item: if the last-ending operation of the block is the leaf the next copy is hung under, copy k starts at
+     start + k·T;
+   * counts are read when modifiers are applied (fixed or registry-provided, default 1), a count of 1 adds
+     nothing, operations that are not sub-circuits are left alone.
+  NOT proved (`unroll_counts`, `unroll_resets`, `unroll_idempotent` for the heap-level `applyModifiers`: they need
+  a frame argument over the recursive copy) — these clauses are evaluated on the implementation and compared
+  with the model on every generated program; the library "n-fold concatenation" clause is false of model and
+  code (known finding R5).
+-/
 namespace Qco.C06
+
+open Qco Qco.C10
+
+/-- the copy appended by `extend` follows the latest-ending leaf of what precedes it (first wins ties). -/
+theorem copy_follows_latest_leaf (best : Nat × Int) (xs : List (Nat × Int)) :
+    (pickLatest best xs = best ∨ pickLatest best xs ∈ xs) ∧
+    best.2 ≤ (pickLatest best xs).2 ∧ ∀ x ∈ xs, x.2 ≤ (pickLatest best xs).2 :=
+  Qco.C01.group_reference_is_latest best xs
+
+/-- intervals of `n` back-to-back copies of a block of duration `T` starting at `s`. -/
+def chain (s T : Int) (n : Nat) : List (Int × Int) :=
+  (List.range n).map (fun (k : Nat) => (s + (k : Int) * T, s + ((k : Int) + 1) * T))
+
+theorem minOf_chain (s T : Int) (hT : 0 ≤ T) (n : Nat) : minOf ((chain s T (n + 1)).map (·.1)) = s := by
+  apply minOf_eq
+  · simp only [chain, List.map_map, List.mem_map, List.mem_range, Function.comp]
+    exact ⟨0, by omega, by simp⟩
+  · intro x hx
+    simp only [chain, List.map_map, List.mem_map, List.mem_range, Function.comp] at hx
+    obtain ⟨k, _, rfl⟩ := hx
+    have : 0 ≤ (k : Int) * T := Int.mul_nonneg (Int.natCast_nonneg k) hT
+    omega
+
+theorem maxOf_chain (s T : Int) (hT : 0 ≤ T) (n : Nat) :
+    maxOf ((chain s T (n + 1)).map (·.2)) = s + ((n : Int) + 1) * T := by
+  apply maxOf_eq
+  · simp only [chain, List.map_map, List.mem_map, List.mem_range, Function.comp]
+    exact ⟨n, by omega, rfl⟩
+  · intro x hx
+    simp only [chain, List.map_map, List.mem_map, List.mem_range, Function.comp] at hx
+    obtain ⟨k, hk, rfl⟩ := hx
+    have h1 : (k : Int) + 1 ≤ (n : Int) + 1 := by omega
+    have := Int.mul_le_mul_of_nonneg_right h1 hT
+    omega
+
+/-- **n·T**: a block consisting of n ≥ 1 copies of duration T ≥ 0 chained one after another has lead 0 and
+    duration n·T. -/
+theorem chain_span (s T : Int) (hT : 0 ≤ T) (n : Nat) :
+    leadSpan [s] (chain s T (n + 1)) = (0, ((n : Int) + 1) * T) := by
+  unfold leadSpan
+  rw [minOf_chain s T hT n, maxOf_chain s T hT n]
+  simp only [minOf, List.foldl_nil, Int.sub_self, Prod.mk.injEq, true_and]
+  omega
+
+/-- counts are read when modifiers are applied: a fixed count is itself, a registry-provided one is the value
+    registered under its key at that time, 1 if none. -/
+theorem count_fixed (w : World) (n : Nat) : w.repCount (.fixed n) = n := rfl
+
+theorem count_registry_default (w : World) (k : Nat) (h : ∀ p ∈ w.rreg, p.1 ≠ k) : w.repCount (.reg k) = 1 := by
+  unfold World.repCount
+  have : w.rreg.find? (fun x => x.1 == k) = none := by
+    rw [List.find?_eq_none]; intro x hx; simpa using h x hx
+  simp [this]
+
+/-- operations that are not sub-circuits are untouched by `apply_modifiers_to_self`. -/
+theorem apply_leaf (w : World) (f o : Nat) (h : (w.op o).isComp = false) : w.applyModifiers f o = w := by
+  cases f with
+  | zero => rfl
+  | succ f => simp [World.applyModifiers, h]
+
+/-- non-vacuity of `chain_span`: three copies of a block of duration 2 (16 units) starting at 1. -/
+example : leadSpan [8] (chain 8 16 3) = (0, 48) := by decide
+
 end Qco.C06
